@@ -20,35 +20,35 @@
 From Coq Require Import List Bool Arith ZArith Lia.
 Import ListNotations.
 
-Definition target := nat.
-Definition attr := nat.
-Definition value := nat.
+Definition target := N.
+Definition attr := N.
+Definition value := N.   (* binary: object identities; large ids stay cheap under vm_compute *)
 Definition key := (target * attr)%type.
 Definition heap := target -> attr -> option value.
 Definition hierarchy := target -> list target.
 
 Definition is_some {A} (o : option A) : bool := match o with Some _ => true | None => false end.
 Definition opt_eqb (x y : option value) : bool :=
-  match x, y with Some a, Some b => a =? b | None, None => true | _, _ => false end.
+  match x, y with Some a, Some b => N.eqb a b | None, None => true | _, _ => false end.
 Lemma opt_eqb_eq x y : opt_eqb x y = true <-> x = y.
 Proof.
   destruct x, y; simpl; split; intro H; try discriminate; try reflexivity.
-  - apply Nat.eqb_eq in H. now subst.
-  - inversion H. apply Nat.eqb_refl.
+  - apply N.eqb_eq in H. now subst.
+  - inversion H. apply N.eqb_refl.
 Qed.
 
-Definition key_eqb (k1 k2 : key) : bool := (fst k1 =? fst k2) && (snd k1 =? snd k2).
+Definition key_eqb (k1 k2 : key) : bool := (fst k1 =? fst k2)%N && (snd k1 =? snd k2)%N.
 Lemma key_eqb_eq k1 k2 : key_eqb k1 k2 = true <-> k1 = k2.
 Proof.
-  destruct k1, k2; unfold key_eqb; simpl. rewrite andb_true_iff, !Nat.eqb_eq.
+  destruct k1, k2; unfold key_eqb; simpl. rewrite andb_true_iff, !N.eqb_eq.
   split; [intros [-> ->]; reflexivity | intro H; inversion H; auto].
 Qed.
-Definition mem (t : target) (l : list target) : bool := existsb (Nat.eqb t) l.
+Definition mem (t : target) (l : list target) : bool := existsb (N.eqb t) l.
 Lemma mem_In t l : mem t l = true <-> In t l.
 Proof.
   unfold mem. rewrite existsb_exists. split.
-  - intros [x [Hx He]]. apply Nat.eqb_eq in He. now subst.
-  - intro H. exists t. split; [assumption | apply Nat.eqb_refl].
+  - intros [x [Hx He]]. apply N.eqb_eq in He. now subst.
+  - intro H. exists t. split; [assumption | apply N.eqb_refl].
 Qed.
 Definition in_keys (k : key) (S : list key) : bool := existsb (key_eqb k) S.
 Lemma in_keys_In k S : in_keys k S = true <-> In k S.
@@ -66,22 +66,22 @@ Fixpoint find_attr (h : heap) (a : attr) (l : list target) : option value :=
   end.
 
 Definition py_setattr (h : heap) (t : target) (a : attr) (v : value) : heap :=
-  fun u b => if (u =? t) && (b =? a) then Some v else h u b.
+  fun u b => if (u =? t)%N && (b =? a)%N then Some v else h u b.
 
 (* None = AttributeError (the attribute is not in the object's own dict) *)
 Definition py_delattr (h : heap) (t : target) (a : attr) : option heap :=
   match h t a with
   | None => None
-  | Some _ => Some (fun u b => if (u =? t) && (b =? a) then None else h u b)
+  | Some _ => Some (fun u b => if (u =? t)%N && (b =? a)%N then None else h u b)
   end.
 
 Lemma set_same h t a v : py_setattr h t a v t a = Some v.
-Proof. unfold py_setattr. now rewrite !Nat.eqb_refl. Qed.
+Proof. unfold py_setattr. now rewrite !N.eqb_refl. Qed.
 Lemma set_other h t a v u b : (u, b) <> (t, a) -> py_setattr h t a v u b = h u b.
 Proof.
   intro H. unfold py_setattr.
-  destruct (u =? t) eqn:E1; [|reflexivity]. destruct (b =? a) eqn:E2; [|reflexivity].
-  apply Nat.eqb_eq in E1. apply Nat.eqb_eq in E2. subst. now contradiction H.
+  destruct (u =? t)%N eqn:E1; [|reflexivity]. destruct (b =? a)%N eqn:E2; [|reflexivity].
+  apply N.eqb_eq in E1. apply N.eqb_eq in E2. subst. now contradiction H.
 Qed.
 Lemma find_set_other_attr h t a v b l : b <> a -> find_attr (py_setattr h t a v) b l = find_attr h b l.
 Proof.
@@ -117,8 +117,8 @@ Inductive outcome := Returned | Raised.
 Inductive fpoint := FNone | FBefore | FAfter.
 Definition fpoint_at (f : fault) (k : nat) : fpoint :=
   match f with
-  | BeforeSet j => if j =? k then FBefore else FNone
-  | AfterSet j => if j =? k then FAfter else FNone
+  | BeforeSet j => if Nat.eqb j k then FBefore else FNone
+  | AfterSet j => if Nat.eqb j k then FAfter else FNone
   | _ => FNone
   end.
 Definition is_in_body (f : fault) : bool := match f with InBody => true | _ => false end.
@@ -289,14 +289,14 @@ Proof. intros H h0 u b. left. apply H. Qed.
 Lemma restore1_same h t a o : restore1 h (t, a, o) t a = o.
 Proof.
   unfold restore1. destruct o as [v|]; [apply set_same|].
-  unfold py_delattr. destruct (h t a) eqn:E; [|assumption]. now rewrite !Nat.eqb_refl.
+  unfold py_delattr. destruct (h t a) eqn:E; [|assumption]. now rewrite !N.eqb_refl.
 Qed.
 Lemma restore1_other h t a o u b : (u, b) <> (t, a) -> restore1 h (t, a, o) u b = h u b.
 Proof.
   intro H. unfold restore1. destruct o as [v|]; [now apply set_other|].
   unfold py_delattr. destruct (h t a) eqn:E; [|reflexivity].
-  destruct (u =? t) eqn:E1; [|reflexivity]. destruct (b =? a) eqn:E2; [|reflexivity].
-  apply Nat.eqb_eq in E1. apply Nat.eqb_eq in E2. subst. now contradiction H.
+  destruct (u =? t)%N eqn:E1; [|reflexivity]. destruct (b =? a)%N eqn:E2; [|reflexivity].
+  apply N.eqb_eq in E1. apply N.eqb_eq in E2. subst. now contradiction H.
 Qed.
 Lemma lookup_owned h t a v : h t a = Some v -> lookup h t a = Some v.
 Proof. intro H. unfold lookup. simpl. now rewrite H. Qed.
@@ -309,9 +309,9 @@ Proof. intro H. unfold lookup. simpl. now rewrite H. Qed.
    unowned and has t among its ancestors.  That later getattr then reads the patched value as its
    "original" and the unwinding writes it into own u.                                               *)
 Definition owned_add (o : target -> attr -> bool) (t : target) (a : attr) : target -> attr -> bool :=
-  fun u b => o u b || ((u =? t) && (b =? a)).
+  fun u b => o u b || ((u =? t)%N && (b =? a)%N).
 Definition clash_with (o' : target -> attr -> bool) (t : target) (a : attr) (k : key) : bool :=
-  let (u, b) := k in (b =? a) && mem t (M u) && negb (o' u b).
+  let (u, b) := k in (b =? a)%N && mem t (M u) && negb (o' u b).
 Fixpoint clash_free (o : target -> attr -> bool) (ks inner : list key) : bool :=
   match ks with
   | [] => true
@@ -351,7 +351,7 @@ Proof.
   apply andb_true_iff in H. destruct H as [H1 H2]. apply andb_true_iff. split.
   - rewrite forallb_forall in *. intros k Hk. specialize (H1 k Hk).
     destruct k as [u b]. unfold clash_with in *.
-    destruct ((b =? a) && mem t (M u)); simpl in *; [|reflexivity].
+    destruct ((b =? a)%N && mem t (M u)); simpl in *; [|reflexivity].
     rewrite negb_involutive in *. unfold owned_add in *.
     apply orb_true_iff in H1. apply orb_true_iff. destruct H1; [left; auto|now right].
   - apply (IH inner (owned_add o1 t a)); [|assumption].
@@ -364,7 +364,7 @@ Proof.
   intros Hf s. revert k. induction specs as [|s0 rest IH]; intro k; simpl; [tauto|].
   intros [E|I]; [|now apply (IH (S k))].
   inversion E as [[E1 E2]]. destruct f; simpl in *; try discriminate; try contradiction.
-  destruct (k0 =? k); discriminate.
+  destruct (Nat.eqb k0 k); discriminate.
 Qed.
 
 (* ------------------------------------------------------------------ main lemma *)
@@ -385,7 +385,7 @@ Proof.
       set (h1 := py_setattr h t a v).
       assert (Ho' : forall u b, owned_add o t a u b = is_some (h1 u b)).
       { intros u b. unfold owned_add, h1, py_setattr. rewrite Ho.
-        destruct ((u =? t) && (b =? a)); simpl; [apply orb_true_r|apply orb_false_r]. }
+        destruct ((u =? t)%N && (b =? a)%N); simpl; [apply orb_true_r|apply orb_false_r]. }
       assert (Hs' : sync_items rest) by (intros s0 I; apply (Hs s0); now right).
       specialize (IH body Sb h1 _ Ho' Hs' Hc2 Hb).
       intros u b. destruct (key_eqb (u, b) (t, a)) eqn:Ek.
@@ -402,8 +402,8 @@ Proof.
            rewrite forallb_forall in Hc1. specialize (Hc1 (u, b) I). simpl in Hc1.
            rewrite Ho', N in Hc1. simpl in Hc1. rewrite andb_true_r in Hc1.
            apply negb_true_iff in Hc1. unfold lookup, h1.
-           destruct (Nat.eq_dec b a) as [Eba|Hba]; [|now apply find_set_other_attr].
-           subst b. rewrite Nat.eqb_refl in Hc1. simpl in Hc1.
+           destruct (N.eq_dec b a) as [Eba|Hba]; [|now apply find_set_other_attr].
+           subst b. rewrite N.eqb_refl in Hc1. simpl in Hc1.
            apply find_set_notin. intros [E|I2].
            ++ subst u. now contradiction Hne.
            ++ apply mem_In in I2. congruence.
@@ -747,7 +747,7 @@ End PatchTheorems.
    nothing — modelled faithfully, see amp_apply_fault_leaks.                                        *)
 Definition pstate := target -> attr -> option (value * Z).
 Definition ps_upd (ps : pstate) (t : target) (a : attr) (e : option (value * Z)) : pstate :=
-  fun u b => if (u =? t) && (b =? a) then e else ps u b.
+  fun u b => if (u =? t)%N && (b =? a)%N then e else ps u b.
 Definition ps_empty : pstate := fun _ _ => None.
 (* (tgt, attr, patch_fn); patch_fn result None = it raises *)
 Definition amp_spec := (target * attr * (value -> option value))%type.
@@ -755,12 +755,12 @@ Definition amp_key (s : amp_spec) : key := (fst (fst s), snd (fst s)).
 Definition amp_body := heap * pstate -> heap * pstate * outcome.
 
 Lemma ps_upd_same ps t a e : ps_upd ps t a e t a = e.
-Proof. unfold ps_upd. now rewrite !Nat.eqb_refl. Qed.
+Proof. unfold ps_upd. now rewrite !N.eqb_refl. Qed.
 Lemma ps_upd_other ps t a e u b : (u, b) <> (t, a) -> ps_upd ps t a e u b = ps u b.
 Proof.
   intro H. unfold ps_upd.
-  destruct (u =? t) eqn:E1; [|reflexivity]. destruct (b =? a) eqn:E2; [|reflexivity].
-  apply Nat.eqb_eq in E1. apply Nat.eqb_eq in E2. subst. now contradiction H.
+  destruct (u =? t)%N eqn:E1; [|reflexivity]. destruct (b =? a)%N eqn:E2; [|reflexivity].
+  apply N.eqb_eq in E1. apply N.eqb_eq in E2. subst. now contradiction H.
 Qed.
 
 Section Amp.
@@ -952,12 +952,12 @@ Proof.
       destruct (amp_nested rest (S k) f body h psb) as [[[h2' ps2'] oc'] ent] eqn:En. simpl in H.
       destruct ent; [|inversion H].
       assert (Hwfb : ps_wf psb).
-      { intros u b o' c' E. unfold psb, ps_upd in E. destruct ((u =? t) && (b =? a)).
+      { intros u b o' c' E. unfold psb, ps_upd in E. destruct ((u =? t)%N && (b =? a)%N).
         - inversion E. specialize (Hwf _ _ _ _ Ep). timeout 20 lia.
         - now apply (Hwf u b o'). }
       assert (Hactb : forall u b, act u b = is_some (psb u b)).
-      { intros u b. unfold psb, ps_upd. destruct ((u =? t) && (b =? a)) eqn:E; [|apply Hact].
-        apply andb_true_iff in E. destruct E as [E1 E2]. apply Nat.eqb_eq in E1. apply Nat.eqb_eq in E2.
+      { intros u b. unfold psb, ps_upd. destruct ((u =? t)%N && (b =? a)%N) eqn:E; [|apply Hact].
+        apply andb_true_iff in E. destruct E as [E1 E2]. apply N.eqb_eq in E1. apply N.eqb_eq in E2.
         subst. now rewrite Hact, Ep. }
       assert (Hcovb : forall s, In s ks0 -> In s rest \/ active psb (amp_key s)).
       { intros s Hs. destruct (Hcov s Hs) as [[E|I]|A].
@@ -984,12 +984,12 @@ Proof.
       destruct (amp_nested rest (S k) f body h1 psb) as [[[h2' ps2'] oc'] ent] eqn:En. simpl in H.
       destruct ent; [|inversion H].
       assert (Hwfb : ps_wf psb).
-      { intros u b o' c' E. unfold psb, ps_upd in E. destruct ((u =? t) && (b =? a)).
+      { intros u b o' c' E. unfold psb, ps_upd in E. destruct ((u =? t)%N && (b =? a)%N).
         - inversion E. timeout 20 lia.
         - now apply (Hwf u b o'). }
       assert (Hactb : forall u b, owned_add act t a u b = is_some (psb u b)).
       { intros u b. unfold owned_add, psb, ps_upd. rewrite Hact.
-        destruct ((u =? t) && (b =? a)); simpl; [apply orb_true_r|apply orb_false_r]. }
+        destruct ((u =? t)%N && (b =? a)%N); simpl; [apply orb_true_r|apply orb_false_r]. }
       assert (Hcovb : forall s, In s ks0 -> In s rest \/ active psb (amp_key s)).
       { intros s Hs. destruct (Hcov s Hs) as [[E|I]|A].
         - right. subst s. unfold active, amp_key, psb. simpl. now rewrite ps_upd_same.
@@ -1294,19 +1294,19 @@ Qed.
 
 (* ================================================================== data-level interface (harness) *)
 Inductive spec_d := DAssign (t : target) (a : attr) (v : value)
-                  | DMonkey (t : target) (a : attr) (base : nat)        (* make_value(o) = base + code(o) *)
+                  | DMonkey (t : target) (a : attr) (base : N)        (* make_value(o) = base + code(o) *)
                   | DMonkeyRaise (t : target) (a : attr).
-Definition code_orig (o : option value) : nat := match o with None => 0 | Some x => S x end.
+Definition code_orig (o : option value) : N := match o with None => 0%N | Some x => N.succ x end.
 Definition spec_of_d (d : spec_d) : spec :=
   match d with
   | DAssign t a v => Assign t a v
-  | DMonkey t a base => Monkey t a (fun o => Some (base + code_orig o))
+  | DMonkey t a base => Monkey t a (fun o => Some (base + code_orig o)%N)
   | DMonkeyRaise t a => Monkey t a (fun _ => None)
   end.
 Definition heap_of (l : list (target * attr * value)) : heap :=
   fun t a => match find (fun e => key_eqb (fst e) (t, a)) l with Some e => Some (snd e) | None => None end.
 Definition mro_of (l : list (target * list target)) : hierarchy :=
-  fun t => match find (fun e => fst e =? t) l with Some e => snd e | None => [] end.
+  fun t => match find (fun e => (fst e =? t)%N) l with Some e => snd e | None => [] end.
 (* an observation: (target, attr, own entry, getattr result) *)
 Definition obs := (target * attr * option value * option value)%type.
 Definition obs_ok (M : hierarchy) (h : heap) (l : list obs) : bool :=
@@ -1361,16 +1361,16 @@ Definition pcase_ok (c : pcase) : bool :=
   end.
 
 (* one tie-D case for apply_monkey_patches: nesting depth (>= 1), keys with patch_fn as data *)
-Inductive pf_d := PfAffine (base : nat) | PfRaise.
+Inductive pf_d := PfAffine (base : N) | PfRaise.
 Definition pf_of (d : pf_d) : value -> option value :=
-  match d with PfAffine base => fun o => Some (base + S o) | PfRaise => fun _ => None end.
+  match d with PfAffine base => fun o => Some (base + N.succ o)%N | PfRaise => fun _ => None end.
 Definition acase := (list (target * list target) * list (target * attr * value) *
                      list (target * attr * pf_d) * nat * bool *
                      list obs * list (target * attr * option (value * Z)) * outcome)%type.
 Definition ps_obs_ok (ps : pstate) (l : list (target * attr * option (value * Z))) : bool :=
   forallb (fun o => let '(t, a, e) := o in
     match ps t a, e with
-    | Some (v, c), Some (v', c') => (v =? v') && (c =? c')%Z
+    | Some (v, c), Some (v', c') => N.eqb v v' && (c =? c')%Z
     | None, None => true
     | _, _ => false
     end) l.
@@ -1381,6 +1381,41 @@ Definition acase_ok (c : acase) : bool :=
   let body : amp_body := fun hp => (fst hp, snd hp, if body_returns then Returned else Raised) in
   let r := amp_depth M depth ks' NoFault body (h, ps_empty) in
   obs_ok M (fst (fst r)) after && ps_obs_ok (snd (fst r)) psafter && outcome_eqb (snd r) oc.
+
+(* tolerant variants: an implementation that restores MORE than the model (an entry equal to the
+   initial own entry, or to what getattr found initially; getattr equal to the initial getattr) is
+   not a broken tie — it can only be closer to the property *)
+Definition obs_ok_tol (M : hierarchy) (h0 hm : heap) (l : list obs) : bool :=
+  forallb (fun o => let '(t, a, ow, lk) := o in
+    (opt_eqb (hm t a) ow || opt_eqb (h0 t a) ow || opt_eqb (lookup M h0 t a) ow) &&
+    (opt_eqb (lookup M hm t a) lk || opt_eqb (lookup M h0 t a) lk)) l.
+Definition pcase_ok_tol (c : pcase) : bool :=
+  let '(ml, ol, fr, body_returns, mid, after, oc) := c in
+  let M := mro_of ml in let h := heap_of ol in
+  let frames := frames_of fr in
+  let body : heap -> heap * outcome := fun x => (x, if body_returns then Returned else Raised) in
+  let r := with_stack M frames body h in
+  obs_ok_tol M h (fst r) after && outcome_eqb (snd r) oc &&
+  match core_mid M (stack_items frames) h, mid with
+  | Some hm, Some l => negb (existsb (fun x => is_in_body (snd x)) fr) && obs_ok M hm l
+  | None, None => true
+  | Some _, None => existsb (fun x => is_in_body (snd x)) fr
+  | None, Some _ => false
+  end.
+Definition ps_obs_ok_tol (ps : pstate) (l : list (target * attr * option (value * Z))) : bool :=
+  forallb (fun o => let '(t, a, e) := o in
+    match ps t a, e with
+    | Some (v, c), Some (v', c') => N.eqb v v' && (c =? c')%Z
+    | _, None => true
+    | None, Some _ => false
+    end) l.
+Definition acase_ok_tol (c : acase) : bool :=
+  let '(ml, ol, ks, depth, body_returns, after, psafter, oc) := c in
+  let M := mro_of ml in let h := heap_of ol in
+  let ks' := map (fun x => (fst (fst x), snd (fst x), pf_of (snd x))) ks in
+  let body : amp_body := fun hp => (fst hp, snd hp, if body_returns then Returned else Raised) in
+  let r := amp_depth M depth ks' NoFault body (h, ps_empty) in
+  obs_ok_tol M h (fst (fst r)) after && ps_obs_ok_tol (snd (fst r)) psafter && outcome_eqb (snd r) oc.
 
 (* the real spec list, dumped by the harness: predicted own / getattr differences after one
    activation stack, and the clashes that explain them *)
@@ -1399,21 +1434,22 @@ Definition real_incoherent (ml : list (target * list target)) (ol : list (target
 
 (* ================================================================== non-vacuity and refutations *)
 Module Examples.
+Local Open Scope N_scope.
 (* targets: 0 = class Base, 1 = class Child(Base), 2 = a module, 3 = class Mix, 4 = class D(Child, Mix)
    attrs:   0 = __call__, 1 = helper (missing everywhere), 2 = f (module function)                  *)
 Definition M0 : hierarchy := mro_of [(1, [0]); (4, [1; 3; 0])].
-Definition h0 : heap := heap_of [(0, 0, 10); (2, 2, 20); (3, 0, 30)].
+Definition h0 : heap := heap_of [(0, 0, 10%N); (2, 2, 20%N); (3, 0, 30%N)].
 
 (* child patched BEFORE parent: clash-free, everything restored; duplicate spec, missing attribute *)
 Definition specs_ok : list spec :=
-  [Assign 2 1 77; Monkey 1 0 (fun o => Some 100); Monkey 0 0 (fun o => Some 101);
-   Assign 2 2 21; Assign 2 2 22; Monkey 1 0 (fun o => Some 102)].
+  [Assign 2 1 77%N; Monkey 1 0 (fun o => Some 100%N); Monkey 0 0 (fun o => Some 101%N);
+   Assign 2 2 21%N; Assign 2 2 22%N; Monkey 1 0 (fun o => Some 102%N)].
 Example ex_clash_free : no_inherited_clash M0 h0 specs_ok = true.
 Proof. vm_compute. reflexivity. Qed.
 Example ex_patched_inside :
   let hm := core_mid M0 (annotate specs_ok 0 NoFault) h0 in
   match hm with
-  | Some h => (lookup M0 h 1 0, lookup M0 h 0 0, lookup M0 h 2 2, lookup M0 h 2 1) = (Some 102, Some 101, Some 22, Some 77)
+  | Some h => (lookup M0 h 1 0, lookup M0 h 0 0, lookup M0 h 2 2, lookup M0 h 2 1) = (Some 102%N, Some 101%N, Some 22%N, Some 77%N)
   | None => False
   end.
 Proof. vm_compute. reflexivity. Qed.
@@ -1426,17 +1462,18 @@ Proof. vm_compute. reflexivity. Qed.
 (* the own dict of Child gains __call__ (materialised), the missing helper is deleted again *)
 Example ex_materialised :
   let h := fst (with_patches M0 specs_ok NoFault (fun x => (x, Returned)) h0) in
-  (h0 1 0, h 1 0, h 2 1, h0 2 1) = (None, Some 10, None, None).
+  (h0 1 0, h 1 0, h 2 1, h0 2 1) = (None, Some 10%N, None, None).
 Proof. vm_compute. reflexivity. Qed.
 Example ex_coherent_for_chain : mro_coherent M0 h0 specs_ok 1 0 = true.
 Proof. vm_compute. reflexivity. Qed.
 
 (* parent patched BEFORE the inheriting child: the side condition fails ... *)
-Definition specs_clash : list spec := [Monkey 0 0 (fun o => Some 101); Monkey 1 0 (fun o => Some 100)].
+Definition specs_clash : list spec := [Monkey 0 0 (fun o => Some 101%N); Monkey 1 0 (fun o => Some 100%N)].
 Example ex_clash_detected : no_inherited_clash M0 h0 specs_clash = false.
 Proof. vm_compute. reflexivity. Qed.
 End Examples.
 
+Local Open Scope N_scope.
 (* ... and it is necessary: the child saves the parent's PATCHED value as its original *)
 Theorem inherited_clash_leaks : exists M h specs t a,
   no_inherited_clash M h specs = false /\ mro_coherent M h specs t a = true /\
@@ -1451,14 +1488,14 @@ Theorem incoherent_mro_leaks : exists M h specs D a,
   no_inherited_clash M h specs = true /\ mro_coherent M h specs D a = false /\
   lookup M (fst (with_patches M specs NoFault (fun x => (x, Returned)) h)) D a <> lookup M h D a.
 Proof.
-  exists Examples.M0, Examples.h0, [Monkey 1 0 (fun _ => Some 100)], 4, 0. vm_compute.
+  exists Examples.M0, Examples.h0, [Monkey 1 0 (fun _ => Some 100%N)], 4, 0. vm_compute.
   repeat split; discriminate.
 Qed.
 (* an exception between setattr and applied.append (asynchronous only) is not unwound *)
 Theorem async_fault_after_setattr_leaks : exists M h specs k t a,
   lookup M (fst (with_patches M specs (AfterSet k) (fun x => (x, Returned)) h)) t a <> lookup M h t a.
 Proof.
-  exists Examples.M0, Examples.h0, [Assign 2 2 21], 0, 2, 2. vm_compute. discriminate.
+  exists Examples.M0, Examples.h0, [Assign 2 2 21%N], 0%nat, 2, 2. vm_compute. discriminate.
 Qed.
 (* apply_monkey_patches: an exception in the enter loop (here: getattr on a missing attribute for
    the second key) leaves the first key patched and its count at 1 for ever *)
@@ -1467,12 +1504,12 @@ Theorem amp_apply_fault_leaks : exists M h ks t a,
   amp_entered M ks NoFault (h, ps_empty) = false /\
   lookup M (fst (fst r)) t a <> lookup M h t a /\ snd (fst r) t a <> ps_empty t a.
 Proof.
-  exists Examples.M0, Examples.h0, [(0, 0, fun o => Some 500); (2, 1, fun o => Some 501)], 0, 0.
+  exists Examples.M0, Examples.h0, [(0, 0, fun o => Some 500%N); (2, 1, fun o => Some 501%N)], 0, 0.
   vm_compute. repeat split; discriminate.
 Qed.
 (* non-vacuity of refcount_restores / refcount_nesting: depth 3, body raising *)
 Example amp_nesting_example :
-  let ks := [(0, 0, fun o => Some 500); (2, 2, fun o => Some 501); (0, 0, fun o => Some 502)] in
+  let ks := [(0, 0, fun o => Some 500%N); (2, 2, fun o => Some 501%N); (0, 0, fun o => Some 502%N)] in
   let r := amp_depth Examples.M0 3 ks InBody (fun hp => (fst hp, snd hp, Returned)) (Examples.h0, ps_empty) in
   amp_entered Examples.M0 ks NoFault (Examples.h0, ps_empty) = true /\
   snd r = Raised /\
